@@ -66,3 +66,5 @@ Lemma ex_build_ok : build_ok 0 2 (1#2) ["S"; "I"; "R"] ["I"] ex_ops = Some ex_m.
 Proof. vm_compute. reflexivity. Qed.
 Lemma ex_build2_ok : build_ok 0 1 (1#2) ["S"; "I"; "R"] ["I"] ex_ops = Some ex_m2.
 Proof. vm_compute. reflexivity. Qed.
+
+Definition env_of_ex (l : list (string * Q)) : env QcOps := env_of QcOps l.
